@@ -32,7 +32,7 @@ ID = 'C15'
 TU = 'csep.utils.time_utils'
 SIG_TRUNC = TU + '.datetime_to_utc_epoch|off-by-one-ms|float-truncation'
 
-RULE = ('Complete windows: EVERY integer millisecond in [b-W, b+W] (clipped to 1900-01-01..2200-01-01), W=5000 quick / '
+RULE = ('Process time zone: UTC for everything below, plus 5 complete windows of +-500 ms (thorough +-5000), 4001 microseconds and 3 years of decimal years under each of TZ=PST8PDT, XJP-9, XNP-5:45, UTC0. Complete windows: EVERY integer millisecond in [b-W, b+W] (clipped to 1900-01-01..2200-01-01), W=5000 quick / '
         '100000 thorough, around 16 boundaries b (epoch 0; starts of 1900, 1901, 2000, 2001, 2100, 2200; 2000-02-29, '
         '2000-03-01, 2100-03-01; two day, two minute and two second boundaries on both sides of 1970, incl. 2^31 s); all '
         '1000 millisecond phases of 8 further seconds; every whole second within +-1800 s (thorough +-20000 s) of each '
@@ -190,6 +190,15 @@ def cases(tier, seed):
     # 2. all 1000 phases of 8 seconds
     for s in PHASE_SECONDS:
         yield dict(kind='window', name=f'phases-of-second-{s}', lo=s * 1000, hi=s * 1000 + 999, last=True)
+    # 2b. the process time zone is an input nobody passes explicitly: complete windows again with TZ set to zones west and
+    #     east of Greenwich, with and without daylight saving, and with a 45-minute offset (POSIX TZ strings, no tz database needed)
+    W2 = 500 if quick else 5000
+    for tz in TZS:
+        for name, b in (('epoch', 0), ('2010-01-15T12', R.ymd_to_ms(2010, 1, 15, 12)), ('2010-07-15T12', R.ymd_to_ms(2010, 7, 15, 12)),
+                        ('dst-start-2010', R.ymd_to_ms(2010, 3, 14, 10)), ('1935', R.ymd_to_ms(1935, 3, 22, 5, 12, 29))):
+            yield dict(kind='window', name=f'{name}[TZ={tz}]', lo=b - W2, hi=b + W2, last=True, tz=tz)
+        yield dict(kind='usphase', name=f'epoch[TZ={tz}]', lo=-2000, hi=2000, last=True, tz=tz)
+        yield dict(kind='decyear', y0=1999, y1=2001, nsub=64, kulp=8, tz=tz)
     # 3. every microsecond inside a few consecutive milliseconds around each boundary
     nms = 4 if quick else 64
     us_bases = [(name, b) for name, b in _bases()] + [('design-example', EXAMPLE_MS)]
@@ -784,7 +793,10 @@ def _nontrivial_ms(ms):
     return ms % 1000 != 0 or ms % 60000 == 0
 
 
-def run_case(case):
+TZS = ['PST8PDT', 'XJP-9', 'XNP-5:45', 'UTC0']
+
+
+def run_case(case):        # a case with a 'tz' key runs under that process time zone (mc.engine.call_case)
     C = Collector()
     h = hashlib.sha1()
     kind = case['kind']
